@@ -17,8 +17,9 @@ The derivative part keeps the two row buffers `a1`, `a2` as lists that are threa
 them after every `k`, and carries the integer `fac` exactly as written (`fac *= pk` after use).
 Uninitialised buffer cells are `0` in the model (never read for `k ≤ p`, theorem
 `Pyiga.Props.C02.ders_high_zero` shows nothing at all is read for `k > p`).
-C `int fac` is a 32-bit integer; the model uses `Int` (no overflow) — the difference is
-visible for `p ≥ 13` only and is reported by the harness as its own finding.
+`fac` is an unbounded `Int` in the model.  (The C code kept it in a 32-bit `int` until /repo commit
+434e774 — found by this model: orders ≥ 11 at degree ≥ 13 were wrong — and keeps it in a `double`
+now: exact below 2⁵³, correctly rounded beyond, which the error bound absorbs.)
 -/
 import Pyiga.Model.Knots
 
